@@ -846,10 +846,45 @@ def M_or_insert_with(ex, n, a):
 
 
 # ---- iterator methods (receiver: IterV, possibly behind &mut)
+def _std_iter(v, depth=0):
+    """IterV view of a REAL std iterator struct built by executed core MIR (`Option::into_iter()` -> option::IntoIter { inner: Item { opt } },
+    `a.chain(b)` -> Chain { a: Option<A>, b: Option<B> }); None if `v` is not one of them"""
+    while isinstance(v, Ref): v = v.get()
+    if isinstance(v, IterV): return v
+    if not isinstance(v, Agg) or depth > 4 or not isinstance(v.name, str): return None
+    nm = v.name
+    if nm.endswith('option::IntoIter') or nm.endswith('option::Item') or nm.endswith('option::Iter'):
+        inner = v.fields[0] if v.fields else None
+        while isinstance(inner, Ref): inner = inner.get()
+        if isinstance(inner, Agg) and isinstance(inner.name, str) and inner.name.endswith('Option'):
+            return IterV(iter([inner.fields[0]] if inner.variant == 1 else []))
+        return _std_iter(inner, depth + 1)
+    if nm.endswith('::Chain') and 'iter' in nm:
+        parts = []
+        for f in v.fields[:2]:
+            while isinstance(f, Ref): f = f.get()
+            if isinstance(f, Agg) and isinstance(f.name, str) and f.name.endswith('Option'):
+                if f.variant == 0: continue
+                sub = _std_iter(f.fields[0], depth + 1)
+            else:
+                sub = _std_iter(f, depth + 1)
+            if sub is None: return None
+            parts.append(sub)
+        return IterV(itertools.chain(*parts))
+    return None
+
+
 def it(a0):
     v = a0
     while isinstance(v, Ref): v = v.get()
     return v if isinstance(v, IterV) else None
+
+
+def itc(a0):
+    """receiver of a CONSUMING iterator method (taken by value): also accepts real std iterator structs (never used for `next`,
+    which would not advance the real struct)"""
+    r = it(a0)
+    return r if r is not None else _std_iter(a0)
 
 
 def M_next(ex, n, a):
@@ -973,7 +1008,7 @@ def I_by_ref(ex, n, a):
 
 
 def I_fold(ex, n, a):
-    i = it(a[0])
+    i = itc(a[0])
     if i is None: return NotImplemented
     acc = a[1]
     for x in i: acc = ex.call_closure(a[2], [acc, x])
@@ -981,20 +1016,20 @@ def I_fold(ex, n, a):
 
 
 def I_for_each(ex, n, a):
-    i = it(a[0])
+    i = itc(a[0])
     if i is None: return NotImplemented
     for x in i: ex.call_closure(a[1], [x])
     return UNIT
 
 
 def I_count(ex, n, a):
-    i = it(a[0])
+    i = itc(a[0])
     if i is None: return NotImplemented
     return u64(sum(1 for _ in i))
 
 
 def I_sum(ex, n, a):
-    i = it(a[0])
+    i = itc(a[0])
     if i is None: return NotImplemented
     acc = None
     for x in i:
@@ -1053,7 +1088,7 @@ def I_position(ex, n, a):
 
 
 def I_last(ex, n, a):
-    i = it(a[0])
+    i = itc(a[0])
     if i is None: return NotImplemented
     last = None
     for x in i: last = x
@@ -1086,43 +1121,46 @@ def _extremum(ex, i, keyf, want_max, by=None):
 
 
 def I_max_by_key(ex, n, a):
-    i = it(a[0])
-    if i is None: return NotImplemented
+    i = itc(a[0])
+    if i is None:
+        import os
+        if os.environ.get('MIRSYM_DEBUG'): print('max_by_key receiver not convertible:', repr(a[0])[:600], getattr(a[0], 'name', None))
+        return NotImplemented
     return _extremum(ex, i, lambda x: ex.call_closure(a[1], [Ref(Cell(x))]), True)
 
 
 def I_min_by_key(ex, n, a):
-    i = it(a[0])
+    i = itc(a[0])
     if i is None: return NotImplemented
     return _extremum(ex, i, lambda x: ex.call_closure(a[1], [Ref(Cell(x))]), False)
 
 
 def I_max(ex, n, a):
-    i = it(a[0])
+    i = itc(a[0])
     if i is None: return NotImplemented
     return _extremum(ex, i, lambda x: x, True)
 
 
 def I_min(ex, n, a):
-    i = it(a[0])
+    i = itc(a[0])
     if i is None: return NotImplemented
     return _extremum(ex, i, lambda x: x, False)
 
 
 def I_max_by(ex, n, a):
-    i = it(a[0])
+    i = itc(a[0])
     if i is None: return NotImplemented
     return _extremum(ex, i, lambda x: x, True, by=lambda p, q: ex.call_closure(a[1], [Ref(Cell(p)), Ref(Cell(q))]))
 
 
 def I_min_by(ex, n, a):
-    i = it(a[0])
+    i = itc(a[0])
     if i is None: return NotImplemented
     return _extremum(ex, i, lambda x: x, False, by=lambda p, q: ex.call_closure(a[1], [Ref(Cell(p)), Ref(Cell(q))]))
 
 
 def I_collect(ex, n, a):
-    i = it(a[0])
+    i = itc(a[0])
     if i is None: return NotImplemented
     m = re.search(r'(?:collect|from_iter)::<(.*)>$', n)
     target = m.group(1) if m else ''
@@ -1169,6 +1207,32 @@ def collect_into(ex, i, target):
     if t in ('_', ''):
         return VecV(list(i))
     raise Unmodelled(f'collect into {t}')
+
+
+def S_chunk_by(ex, n, a):
+    """<[T]>::chunk_by(pred): maximal runs of consecutive elements related by pred(&a, &b), as sub-slices (lazy, like std)"""
+    v = recv(a)
+    if not isinstance(v, VecV): return NotImplemented
+    pred = a[1]; items = list(v.items)
+    def g():
+        i = 0
+        while i < len(items):
+            j = i + 1
+            while j < len(items) and ex.branch(ex.call_closure(pred, [Ref(Cell(items[j - 1])), Ref(Cell(items[j]))])): j += 1
+            yield Ref(Cell(VecV(items[i:j], 'slice')))
+            i = j
+    return IterV(g())
+
+
+def S_chunks(ex, n, a):
+    """<[T]>::chunks(n): consecutive sub-slices of n elements (the last one shorter); n must be concrete"""
+    v = recv(a)
+    if not isinstance(v, VecV) or not isinstance(a[1], Num): return NotImplemented
+    if not a[1].concrete: raise Unmodelled('chunks with a symbolic chunk size')
+    k = a[1].e
+    if k == 0: raise Panic('chunk size must be non-zero')
+    items = list(v.items)
+    return IterV(iter([Ref(Cell(VecV(items[i:i + k], 'slice'))) for i in range(0, len(items), k)]))
 
 
 def I_unzip(ex, n, a):
@@ -1675,7 +1739,7 @@ METHODS = {
     'zip': [I_zip], 'chain': [I_chain], 'rev': [I_rev], 'take': [O_take], 'skip': [I_skip], 'cloned': [O_cloned], 'copied': [O_copied], 'peekable': [I_peekable], 'by_ref': [I_by_ref],
     'fold': [I_fold], 'for_each': [I_for_each], 'count': [I_count], 'sum': [I_sum], 'all': [B_all], 'any': [B_any], 'find': [I_find], 'find_map': [I_find_map], 'position': [I_position],
     'nth': [I_nth], 'max_by_key': [I_max_by_key], 'min_by_key': [I_min_by_key], 'max': [I_max, C_max], 'min': [I_min, C_min], 'max_by': [I_max_by], 'min_by': [I_min_by],
-    'unzip': [I_unzip], 'collect': [I_collect], 'from_iter': [I_collect], 'extend': [I_extend],
+    'chunk_by': [S_chunk_by], 'chunks': [S_chunks], 'unzip': [I_unzip], 'collect': [I_collect], 'from_iter': [I_collect], 'extend': [I_extend],
     'unwrap': [O_unwrap], 'expect': [O_expect], 'unwrap_err': [O_unwrap_err], 'is_some': [O_is_some], 'is_none': [O_is_none], 'is_ok': [O_is_ok], 'is_err': [O_is_err],
     'as_ref': [O_as_ref], 'as_mut': [O_as_mut], 'as_deref': [O_as_deref], 'as_deref_mut': [O_as_deref], 'replace': [O_replace],
     'branch': [T_branch], 'from_residual': [T_from_residual],
